@@ -10,25 +10,7 @@ CONSTANT WithFaults
 VARIABLES st, ok
 vars == <<st, ok>>
 Init == st = Fresh /\ ok = TRUE
-OKs2 == IF WithFaults THEN {<<TRUE, TRUE>>, <<FALSE, TRUE>>, <<TRUE, FALSE>>} ELSE {<<TRUE, TRUE>>}
-OKs1 == IF WithFaults THEN {<<TRUE>>, <<FALSE>>} ELSE {<<TRUE>>}
-OpSet ==
-    {[op |-> "salloc", s |-> s, clr |-> c, ok |-> k, zero |-> FALSE] : s \in SP, c \in (IF NW >= 1 THEN 0..3 ELSE 0..1), k \in OKs2}
-    \cup {[op |-> "salloc", s |-> s, clr |-> 0, ok |-> <<TRUE, TRUE>>, zero |-> TRUE] : s \in SP}
-    \cup {[op |-> "share", e |-> e, n |-> n] : e \in SP, n \in SP}
-    \cup {[op |-> "sswap", a |-> p[1], b |-> p[2]] : p \in {x \in SP \X SP : x[1] <= x[2]}}
-    \cup {[op |-> "sreset", s |-> s] : s \in SP} \cup {[op |-> "sget", s |-> s] : s \in SP}
-    \cup {[op |-> "sunique", s |-> s] : s \in SP}
-    \cup {[op |-> "wfrom", w |-> w, s |-> s] : w \in WP, s \in SP}
-    \cup {[op |-> "wlock", w |-> w, s |-> s] : w \in WP, s \in SP}
-    \cup {[op |-> "wswap", a |-> p[1], b |-> p[2]] : p \in {x \in WP \X WP : x[1] <= x[2]}}
-    \cup {[op |-> "wreset", w |-> w] : w \in WP}
-    \cup {[op |-> "ualloc", u |-> u, clr |-> c, ok |-> k, zero |-> FALSE] : u \in UP, c \in BOOLEAN, k \in OKs1}
-    \cup {[op |-> "ualloc", u |-> u, clr |-> FALSE, ok |-> <<TRUE>>, zero |-> TRUE] : u \in UP}
-    \cup {[op |-> "urelease", u |-> u, outs |-> x] : u \in UP, x \in 0..3} \cup {[op |-> "ureset", u |-> u] : u \in UP}
-    \cup {[op |-> "uget", u |-> u] : u \in UP}
-    \cup {[op |-> "uswap", a |-> p[1], b |-> p[2]] : p \in {x \in UP \X UP : x[1] <= x[2]}}
-\* the allocator's live set according to the model's own events
+OpSet == OpSetF(WithFaults)
 LiveBlocks(s) == Len(s.al) + Cardinality({d \in 1..Len(s.al) : s.al[d].mem}) + Cardinality({u \in UP : s.up[u].has})
 Tgt(pre, m, f) == [x \in DOMAIN f |-> IF f[x] > Len(pre.al) THEN NEWB ELSE f[x]]
 Step(o) == LET r == Apply(st, o) IN
